@@ -578,13 +578,16 @@ def delay_reaches_every_mode(ctx, fi, rule='WINDOW/delay-in-every-mode'):
           cur = cur.orelse[0]
         else:
           break
+  # the onset array is the one whose stored slice is bounded by names the arms of the dispatch assign (whatever it is called)
+  arm_names = set(t.id for _m, body_, _n in arms for b_ in body_ for x_ in ast.walk(b_) if isinstance(x_, ast.Assign) for t0 in x_.targets for t in ast.walk(t0) if isinstance(t, ast.Name))
   slices = [t for st in U.walk_stmts(fn, into_nested=False) if isinstance(st, (ast.Assign, ast.AugAssign)) for t in (st.targets if isinstance(st, ast.Assign) else [st.target])
-            if isinstance(t, ast.Subscript) and isinstance(t.value, ast.Name) and t.value.id == 'onsets']
-  if not arms or len(slices) != 1:
-    why = 'cannot classify: no if-chain on onset_mode, or not exactly one store into onsets[...]'
+            if isinstance(t, ast.Subscript) and isinstance(t.value, ast.Name) and any(isinstance(x_, ast.Slice) for x_ in ast.walk(t.slice)) and
+            arm_names & set(x_.id for x_ in ast.walk(t.slice) if isinstance(x_, ast.Name))]
+  if not arms or not slices:
+    why = 'cannot classify: no if-chain on onset_mode, or no slice store bounded by what its arms assign'
     ctx.ob(rule, fi, fn, False, why, construct=cons, unknown=why)
     return
-  start = set(x.id for x in ast.walk(slices[0].slice) if isinstance(x, ast.Name))
+  start = set(x.id for t_ in slices for x in ast.walk(t_.slice) if isinstance(x, ast.Name) and x.id in arm_names)
   nested = dict((d.name, d) for d in ast.walk(fn) if isinstance(d, (ast.FunctionDef, ast.Lambda)) and d is not fn and hasattr(d, 'name'))
   def assigns_in(stmts):
     out = {}
